@@ -67,6 +67,8 @@ type rootNodeLoc struct {
 	root *nodeLoc
 	next *rootNodeLoc // For free-list tracking.
 
+	superseded bool // A newer version has been published over this one.
+
 	reclaimMark node // Address is used as a sentinel.
 
 	// We might own a reference count on another Collection/rootNodeLoc.
@@ -93,7 +95,6 @@ func (t *Collection) closeCollection() { // Just "close" is a keyword.
 	r := t.root
 	t.root = nil
 	t.rootLock.Unlock()
-	t.reclaimMarkUpdate(r.root, nil, &r.reclaimMark)
 	if r != nil {
 		t.rootDecRef(r)
 	}
@@ -775,6 +776,9 @@ func (t *Collection) rootCAS(prev, next *rootNodeLoc) bool {
 		return false // TODO: Callers need to release resources.
 	}
 	t.root = next
+	if prev != nil {
+		prev.superseded = true
+	}
 
 	if prev != nil && prev.refs > 2 {
 		// Since the prev is in-use, hook up its chain to disallow
@@ -813,6 +817,11 @@ func (t *Collection) rootDecRefUnlocked(r *rootNodeLoc) {
 	}
 	if r.chainedCollection != nil && r.chainedRootNodeLoc != nil {
 		r.chainedCollection.rootDecRefUnlocked(r.chainedRootNodeLoc)
+	}
+	if !r.superseded {
+		// Nobody references this version any more and no newer version
+		// shares its nodes, so the whole cached tree can be reclaimed.
+		t.markTreeUnlocked(r.root, &r.reclaimMark)
 	}
 	t.reclaimNodesUnlocked(r.root.Node(), &r.reclaimLater, &r.reclaimMark)
 	for i := 0; i < len(r.reclaimLater); i++ {
